@@ -119,8 +119,18 @@ func c10GenPhase(r *Rng, nmsg int, noEdits bool) c10Phase {
 		rels = append(rels, rel)
 		ph.Files[rel] = c10Versions(i)[0]
 	}
-	naux := 10
+	// more files than the worker pools have workers (NumCPU+2), some of them much larger than the rest, so that pool
+	// tasks finish out of dispatch order
+	naux := 34
+	nbig := 4
 	auxText := func(i, v int) string {
+		if i >= naux-nbig {
+			var sb strings.Builder
+			for k := 0; k < 2500; k++ {
+				fmt.Fprintf(&sb, "zb%d_%d = %d\n", i, k, k)
+			}
+			return sb.String()
+		}
 		// fixed-width version stamps: every position in the file is the same in every version
 		return fmt.Sprintf("-- auxiliary %d version %04d\nlocal zq%d = { %04d, %d }\nlocal function zh%d(p) return p + %04d end\nreturn zh%d(zq%d[1])\n", i, v, i, v+1000, i, i, v+1000, i, i)
 	}
@@ -187,7 +197,7 @@ func c10GenPhase(r *Rng, nmsg int, noEdits bool) c10Phase {
 				auxVer++
 				disk := map[string]string{}
 				var chs []interface{}
-				for _, ai := range r.Perm(naux)[:r.Range(3, naux)] {
+				for _, ai := range r.Perm(naux - nbig)[:r.Range(3, 10)] {
 					arel := fmt.Sprintf("aux/z%d.lua", ai)
 					disk[arel] = auxText(ai, auxVer)
 					chs = append(chs, map[string]interface{}{"uri": uri(arel), "type": 2})
